@@ -205,6 +205,21 @@ Proof.
   - cbn in H2. destruct H2.
 Qed.
 
+(* the hypothesis of box_acyclic is decidable: union_cycle_b *)
+Lemma union_cycle_b_false g : union_cycle_b g = false -> forall a, ~ on_cycle (nonstruct_edges g) a.
+Proof.
+  unfold union_cycle_b, cyclic_b. intros H a [c [I R]].
+  assert (Ha : In a (map fst g)).
+  { apply in_edges_of in I. destruct I as [it [I _]]. change a with (fst (a, it)). now apply in_map. }
+  assert (existsb (fun a => existsb (fun c => reachb (nonstruct_edges g) c a) (succs (nonstruct_edges g) a)) (map fst g) = true);
+    [|congruence].
+  apply existsb_exists. exists a. split; [assumption|].
+  apply existsb_exists. exists c. split; [now apply in_succs|now apply reachb_correct].
+Qed.
+
+Lemma box_finite_decided g : NoDup (map fst g) -> union_cycle_b g = false -> finite_size g.
+Proof. intros N H. apply box_acyclic; [assumption|now apply union_cycle_b_false]. Qed.
+
 (* non-vacuity: a self-recursive struct, a struct <-> union cycle and a three-struct ring: the
    hypotheses hold, the offending fields are boxed, the others are not *)
 Definition sample_graph : graph :=
@@ -225,3 +240,7 @@ Proof.
     apply reach_unfold in R. destruct R as [R|[c [H _]]]; [discriminate|]. cbn in H. destruct H as [H|[]]. discriminate.
   - vm_compute. reflexivity.
 Qed.
+
+Lemma union_cycle_b_witness : union_cycle_b union_cycle = true /\ union_cycle_b sample_graph = false.
+Proof. split; vm_compute; reflexivity. Qed.
+
